@@ -85,6 +85,11 @@ func c06Firsts() (names []string, wires [][]byte) {
 		leaves["ipv4"], {Code: g.Code, Flags: 0x40, Group: true, Children: []refcodec.Node{leaves["addr-e164"], leaves["unknown"]}}, leaves["addr-ipv4"]}}}))
 	names = append(names, "all-top-level")
 	wires = append(wires, refcodec.EncodeMessage(hdr, all))
+	// the same code twice at one level, not adjacent (top level and inside a group)
+	names = append(names, "repeated-code-top-level")
+	wires = append(wires, refcodec.EncodeMessage(hdr, []refcodec.Node{leaves["addr-ipv4"], leaves["utf8"], leaves["addr-ipv6"], leaves["ident"], leaves["addr-e164"]}))
+	names = append(names, "repeated-code-in-group")
+	wires = append(wires, refcodec.EncodeMessage(hdr, []refcodec.Node{{Code: g.Code, Flags: 0x40, Group: true, Children: []refcodec.Node{leaves["u64"], leaves["utf8"], leaves["u64"], leaves["time"], leaves["u64"]}}, leaves["ident"]}))
 	return
 }
 
@@ -238,8 +243,19 @@ func c06Take(m *diam.Message) (s c06Snap, err string) {
 	if a := m.Answer(2001); a != nil {
 		_, _ = a.Serialize()
 	}
+	// ... and it is searched (read-only lookups by the handler or by whoever it was handed to)
+	for _, a := range m.AVP {
+		_, _ = m.FindAVP(a.Code, a.VendorID)
+		_, _ = m.FindAVPs(a.Code, a.VendorID)
+		_, _ = m.FindAVPsWithPath([]interface{}{a.Code}, a.VendorID)
+		if g, ok := a.Data.(*diam.GroupedAVP); ok {
+			for _, k := range g.AVP {
+				_, _ = m.FindAVPsWithPath([]interface{}{a.Code, k.Code}, 0)
+			}
+		}
+	}
 	if after := fmt.Sprintf("%s | header %+v", m.String(), *m.Header); after != str {
-		return s, fmt.Sprintf("the retained message changed when it was re-serialised / answered: before %q, after %q", clip(str), clip(after))
+		return s, fmt.Sprintf("the retained message changed when it was re-serialised / answered / searched: before %q, after %q", clip(str), clip(after))
 	}
 	return c06Snap{wire: b, str: str}, ""
 }
